@@ -18,6 +18,8 @@ import sympy as sp
 
 from .core import AnalysisError, Module, Repo
 from .values import (
+    NTuple,
+    CtxGen,
     BOTTOM,
     AutogradApply,
     Bound,
@@ -95,6 +97,7 @@ class ModInfo:
         self._thunks: Dict[str, Any] = {}
         self._cache: Dict[str, Any] = {}
         self._busy: set = set()
+        self._init_done = False
         self._scan(module.tree.body)
 
     def _scan(self, body: Sequence[ast.stmt]) -> None:
@@ -134,11 +137,69 @@ class ModInfo:
     def has(self, name: str) -> bool:
         return name in self._thunks
 
+    def _module_effects(self) -> None:
+        """Module-level statements with side effects on other globals -- registering decorators,
+        bare calls, loops, item / attribute assignments -- run once, in order, before the first
+        global of the module is handed out (all of them have run by the time any function is called)."""
+        if self._init_done:
+            return
+        self._init_done = True
+        it = self.interp
+
+        def effectful(body: Sequence[ast.stmt]):
+            for st in body:
+                if isinstance(st, (ast.FunctionDef, ast.AsyncFunctionDef, ast.ClassDef)):
+                    for d in st.decorator_list:
+                        dn = _dotted(d.func if isinstance(d, ast.Call) else d)
+                        short = dn.split(".")[-1] if dn else None
+                        if dn is None or (dn not in TRANSPARENT_DECORATORS and short not in TRANSPARENT_DECORATORS and short not in ("contextmanager", "no_grad", "inference_mode", "fixture", "parametrize", "skipif", "skip", "xfail")):
+                            yield ("def", st)
+                            break
+                elif isinstance(st, ast.Expr) and isinstance(st.value, ast.Call):
+                    yield ("stmt", st)
+                elif isinstance(st, (ast.For, ast.AugAssign, ast.With, ast.While)):
+                    yield ("stmt", st)
+                elif isinstance(st, ast.Assign) and any(not isinstance(t, (ast.Name, ast.Tuple, ast.List)) for t in st.targets):
+                    yield ("stmt", st)
+                elif isinstance(st, ast.If) and not (isinstance(st.test, ast.Name) and st.test.id == "TYPE_CHECKING"):
+                    yield from effectful(st.body)
+                    yield from effectful(st.orelse)
+
+        if "/tests/" in "/" + self.rel:
+            return
+        for kind, st in effectful(self.module.tree.body):
+            try:
+                if kind == "def":
+                    if st.name in self._thunks and self._thunks[st.name][0] in ("def", "class") and self._thunks[st.name][1] is st:
+                        self.get(st.name)
+                    else:
+                        # a later definition rebinds the name: still run this one's decorators
+                        if isinstance(st, ast.ClassDef):
+                            continue
+                        it.decorate(it.make_func(st, self, None, st.name), None, self)
+                else:
+                    env = Env(None, {})
+                    saved = it.cur_mod
+                    it.cur_mod = self
+                    try:
+                        it.exec_stmts([st], env, self, lambda e: ("next", None))
+                    finally:
+                        it.cur_mod = saved
+                    for k_, v_ in env.vars.items():
+                        self._cache[k_] = v_
+                        self._thunks.setdefault(k_, ("assign", ast.Constant(value=None), None))
+            except Unsupported as e:
+                Interp.note_gap(f"module-level statement at {self.rel}:{st.lineno} not modelled ({e})")
+
     def get(self, name: str) -> Any:
         if name in self._cache:
             return self._cache[name]
         if name not in self._thunks:
             raise KeyError(name)
+        if not getattr(self, "_init_done", True) and self._thunks[name][0] not in ("import", "from"):
+            self._module_effects()
+            if name in self._cache:
+                return self._cache[name]
         if name in self._busy:
             return Unknown(f"cyclic global {name}")
         self._busy.add(name)
@@ -254,6 +315,12 @@ def _walk_no_defs(node: ast.AST):
 
 class Interp:
     MAX_DEPTH = 60
+    GAPS: List[str] = []  # unmodelled library idioms met during this process (any interpreter)
+
+    @classmethod
+    def note_gap(cls, what: str) -> None:
+        if what not in cls.GAPS and len(cls.GAPS) < 50:
+            cls.GAPS.append(what)
 
     def __init__(
         self,
@@ -275,6 +342,8 @@ class Interp:
         self.call_stack: List[str] = []
         self._with_stack: List[List[Any]] = []
         self._yield_stack: List[List[Any]] = []
+        self._ctx_yield: List[Tuple[int, Any]] = []
+        self._ctx_running: Any = None
         from . import extlib  # late import (extlib uses this module's names)
 
         self.ext = extlib
@@ -315,6 +384,12 @@ class Interp:
                         f.doc_target = self.eval(d.args[0], Env(None, {}), mi)
                     except Unsupported:
                         f.doc_target = None
+            if short == "wraps" and isinstance(d, ast.Call) and d.args:
+                f.wrapped = (d.args[0], env, mi)
+            if dn in ("contextmanager", "contextlib.contextmanager"):
+                f.kind = "ctxmanager"
+                f.decorators.append(dn)
+                continue
             if dn in ("torch.no_grad", "no_grad", "torch.inference_mode"):
                 f.decorators.append("ctx:" + dn)
                 continue
@@ -322,6 +397,23 @@ class Interp:
                 f.transparent = False
                 f.pending.append(d)
             f.decorators.append(dn)
+        return f
+
+    def unwrap(self, f: Any) -> Any:
+        """inspect.unwrap: follow functools.wraps links (what inspect.signature reports)."""
+        seen = 0
+        while isinstance(f, FuncV) and seen < 10:
+            if "__wrapped__" in f.attrs:
+                f = f.attrs["__wrapped__"]
+            elif f.wrapped is not None:
+                expr, env, mi = f.wrapped
+                try:
+                    f = self.eval(expr, env or Env(None, {}), mi)
+                except Unsupported:
+                    return f
+            else:
+                return f
+            seen += 1
         return f
 
     def decorate(self, f: FuncV, env: Optional[Env], mi: ModInfo) -> Any:
@@ -415,6 +507,10 @@ class Interp:
             return self._autograd_apply(f.cls, list(args), kwargs, node)
         if isinstance(f, _Builtin):
             return f.fn(self, list(args), kwargs, node)
+        if isinstance(f, (Obj, NTuple)) and isinstance(f.cls, ClassV) and not (isinstance(f, Obj) and f.term is not None):
+            call = self.class_attr(f.cls, "__call__")
+            if isinstance(call, FuncV):
+                return self.call_function(call, [f, *args], kwargs, node)
         if isinstance(f, (TV, Obj)):
             # calling an opaque value (e.g. `fn(residual)`, a module attribute)
             term = T("callv", (_term(f), tuple(_term(a) for a in args), tuple(sorted((k, _term(v)) for k, v in kwargs.items()))))
@@ -473,7 +569,11 @@ class Interp:
     def _call_funcv(self, f: FuncV, args: List[Any], kwargs: Dict[str, Any], node: Any) -> Any:
         if not f.transparent:
             self.log("opaque-decorator", node, func=f)
+            Interp.note_gap(f"{f.qualname} is wrapped by an unmodelled decorator {f.decorators}")
             return Unknown(f"{f.qualname} is wrapped by an unmodelled decorator {f.decorators}")
+        if f.kind == "ctxmanager" and not getattr(self, "_ctx_running", None) is f:
+            self.bind(f, args, kwargs)  # arity errors surface at the call
+            return CtxGen(f, list(args), dict(kwargs))
         bound = self.bind(f, args, kwargs)
         if self.opaque(f):
             term = T("call", (f"{f.module.name}.{f.qualname}", tuple((k, _term(v)) for k, v in bound.items())))
@@ -498,6 +598,9 @@ class Interp:
         if f.cls is not None:
             env.vars["__class__"] = f.cls
         is_gen = any(isinstance(n_, (ast.Yield, ast.YieldFrom)) for st_ in f.node.body for n_ in _walk_no_defs(st_))
+        if f.kind == "ctxmanager":
+            is_gen = False
+            self._ctx_running = None
         if is_gen:
             self._yield_stack.append([])
         saved_mod = self.cur_mod
@@ -549,6 +652,25 @@ class Interp:
             if post is not None:
                 self.call_function(post, [obj], {}, node)
             return obj
+        if self.is_subclass_of_ext(c, "NamedTuple"):
+            fields = []
+            for st in c.node.body:
+                if isinstance(st, ast.AnnAssign) and isinstance(st.target, ast.Name):
+                    fields.append((st.target.id, st.value))
+            names = [n for n, _ in fields]
+            if len(args) > len(names):
+                raise Unsupported("NamedTuple: too many args")
+            vals = dict(zip(names, args))
+            for k, v in kwargs.items():
+                if k not in names or k in vals:
+                    raise Unsupported(f"NamedTuple: bad keyword {k}")
+                vals[k] = v
+            for n, d in fields:
+                if n not in vals:
+                    if d is None:
+                        raise Unsupported(f"NamedTuple: missing field {n}")
+                    vals[n] = self.eval(d, Env(c.env, {}), c.module)
+            return NTuple.make(c, names, [vals[n] for n in names])
         init = self.class_attr(c, "__init__")
         if self.opaque(c):
             bound: Dict[str, Any] = {}
@@ -564,7 +686,9 @@ class Interp:
             return obj
         if init is not None:
             obj = Obj(f"{c.module.name}.{c.qualname}", cls=c)
-            self.call_function(init, [obj, *args], kwargs, node)
+            r_ = self.call_function(init, [obj, *args], kwargs, node)
+            if r_ is BOTTOM:
+                return BOTTOM  # __init__ raised
             return obj
         term = T("new", (f"{c.module.name}.{c.qualname}", tuple(_term(a) for a in args), tuple(sorted((k, _term(v)) for k, v in kwargs.items()))))
         return Obj(f"{c.module.name}.{c.qualname}", cls=c, term=term)
@@ -580,6 +704,8 @@ class Interp:
 
     def class_attr(self, c: ClassV, name: str) -> Any:
         """Look a method / class attribute up in a repository class and its repo bases."""
+        if name in c.overrides:
+            return c.overrides[name]
         for st in c.node.body:
             if isinstance(st, (ast.FunctionDef, ast.AsyncFunctionDef)) and st.name == name:
                 return self.decorate(self.make_func(st, c.module, c.env, f"{c.qualname}.{name}", cls=c), c.env, c.module)
@@ -630,6 +756,8 @@ class Interp:
         while i < n:
             st = stmts[i]
             rest = stmts[i + 1 :]
+            if isinstance(st, ast.Match):
+                return self.exec_stmts(self._lower_match(st, env, mi) + rest, env, mi, k)
             if isinstance(st, ast.If):
                 cond = self.truth(self.eval(st.test, env, mi), st)
                 if cond is True:
@@ -763,7 +891,7 @@ class Interp:
                     if steps > 5000:
                         raise Unsupported("live iteration does not terminate")
                     self.assign(st.target, cur, env, mi, st)
-                    kind, val = self.exec_stmts(list(st.body), env, mi, lambda e: ("next", None))
+                    kind, val = self.exec_stmts(list(st.body), env, mi, lambda e: ("continue", None))
                     if kind == "return":
                         return ("raise", None) if val is BOTTOM else ("return", val)
                     if kind == "break":
@@ -773,18 +901,33 @@ class Interp:
             if it is BOTTOM:
                 return ("raise", None)
             seq = self.concrete_iter(it)
+            if seq is None and isinstance(it, (TV, Obj)) and not (isinstance(it, TV) and it.kind == "tensor") and not st.orelse:
+                # a collection held by an external (uninterpreted) object: its elements are unknown; the
+                # body is evaluated once, on an uninterpreted element, under the guard "non-empty"
+                cond = T("nonempty", (_term(it),))
+                e2 = env.copy()
+                self.assign(st.target, TV(T("elem", (_term(it),)), kind="opaque"), e2, mi, st)
+                kind, val = self._guarded(cond, True, lambda: self.exec_stmts(list(st.body), e2, mi, lambda e: ("continue", None)))
+                if kind in ("return", "break"):
+                    raise Unsupported(f"control transfer in a loop over an uninterpreted collection at {mi.rel}:{st.lineno}")
+                self.log("havoc-loop", st, iter=it)
+                for name in e2.vars:
+                    old = env.vars.get(name, Unknown(f"{name} unbound when the collection is empty"))
+                    if not value_eq(e2.vars[name], old):
+                        env.vars[name] = self.mkgamma(cond, e2.vars[name], old)
+                return None
             if seq is None:
                 raise Unsupported(f"loop over non-concrete iterable at {mi.rel}:{st.lineno}")
             for item in seq:
                 if isinstance(item, Maybe):
                     # conditional member: the body runs under the membership guard
                     self.assign(st.target, item.value, env, mi, st)
-                    kind, val = self._guarded(item.cond, True, lambda: self.exec_stmts(list(st.body), env, mi, lambda e: ("next", None)))
+                    kind, val = self._guarded(item.cond, True, lambda: self.exec_stmts(list(st.body), env, mi, lambda e: ("continue", None)))
                     if kind in ("return", "break"):
                         raise Unsupported("control transfer inside a conditionally executed loop body")
                     continue
                 self.assign(st.target, item, env, mi, st)
-                kind, val = self.exec_stmts(list(st.body), env, mi, lambda e: ("next", None))
+                kind, val = self.exec_stmts(list(st.body), env, mi, lambda e: ("continue", None))
                 if kind == "return":
                     if val is BOTTOM:
                         return ("raise", None)
@@ -798,27 +941,10 @@ class Interp:
                         return ("return", val)
             return None
         if isinstance(st, ast.Match):
-            subj = self.eval(st.subject, env, mi)
-            for case in st.cases:
-                binds: Dict[str, Any] = {}
-                m = self._match(case.pattern, subj, binds, env, mi)
-                if m is None:
-                    raise Unsupported(f"match statement with an undecidable pattern at {mi.rel}:{st.lineno}")
-                if not m:
-                    continue
-                for k_, v_ in binds.items():
-                    env.set(k_, v_)
-                if case.guard is not None:
-                    g_ = self.truth(self.eval(case.guard, env, mi), st)
-                    if g_ is False:
-                        continue
-                    if g_ is not True:
-                        raise Unsupported("match guard undecidable")
-                kind, val = self.exec_stmts(list(case.body), env, mi, lambda e: ("next", None))
-                if kind == "next":
-                    return None
-                return (kind, val) if not (kind == "return" and val is BOTTOM) else ("raise", None)
-            return None
+            kind, val = self.exec_stmts(self._lower_match(st, env, mi), env, mi, lambda e: ("next", None))
+            if kind == "next":
+                return None
+            return (kind, val) if not (kind == "return" and val is BOTTOM) else ("raise", None)
         if isinstance(st, ast.Try):
             mark = len(self.events)
             kind, val = self.exec_stmts(list(st.body), env, mi, lambda e: ("next", None))
@@ -870,7 +996,7 @@ class Interp:
                     break
                 if c is not True:
                     raise Unsupported(f"while loop with undecidable condition at {mi.rel}:{st.lineno}")
-                kind, val = self.exec_stmts(list(st.body), env, mi, lambda e: ("next", None))
+                kind, val = self.exec_stmts(list(st.body), env, mi, lambda e: ("continue", None))
                 if kind == "return":
                     return ("raise", None) if val is BOTTOM else ("return", val)
                 if kind == "break":
@@ -879,21 +1005,7 @@ class Interp:
                 raise Unsupported("while loop does not terminate within the bound")
             return None
         if isinstance(st, ast.With):
-            self._with_stack.append([])
-            for item in st.items:
-                cm = self.eval(item.context_expr, env, mi)
-                self._with_stack[-1].append(cm)
-                self.log("with", st, ctx=cm)
-                if item.optional_vars is not None:
-                    self.assign(item.optional_vars, cm, env, mi, st)
-            cms = [self.eval(item.context_expr, env, mi) for item in st.items] if False else []
-            kind, val = self.exec_stmts(list(st.body), env, mi, lambda e: ("next", None))
-            for cm in reversed(self._with_stack.pop() if self._with_stack else []):
-                if isinstance(cm, Obj) and "__exit__" in cm.attrs:
-                    self.call_function(cm.attrs["__exit__"], [], {}, st)
-            if kind in ("return", "break", "continue"):
-                return (kind, val) if not (kind == "return" and val is BOTTOM) else ("raise", None)
-            return None
+            return self._exec_with(st, 0, env, mi)
         if isinstance(st, ast.Break):
             return ("break", None)
         if isinstance(st, ast.Continue):
@@ -937,67 +1049,202 @@ class Interp:
             return None
         raise Unsupported(f"statement {type(st).__name__} at {mi.rel}:{st.lineno}")
 
-    def _match(self, pat: Any, subj: Any, binds: Dict[str, Any], env: Env, mi: ModInfo) -> Optional[bool]:
+    def _exec_with(self, st: ast.With, idx: int, env: Env, mi: ModInfo) -> Optional[Tuple[str, Any]]:
+        if idx >= len(st.items):
+            kind, val = self.exec_stmts(list(st.body), env, mi, lambda e: ("next", None))
+            if kind in ("return", "break", "continue"):
+                return (kind, val) if not (kind == "return" and val is BOTTOM) else ("raise", None)
+            return None
+        item = st.items[idx]
+        cm = self.eval(item.context_expr, env, mi)
+        if isinstance(cm, CtxGen):
+            # generator-based context manager defined in the repository: run its body, and the
+            # remaining items / the with-body at its yield
+            box: List[Any] = []
+
+            def at_yield(value: Any) -> None:
+                self._ctx_yield.append((-1, None))  # nested yields are not this manager's
+                try:
+                    if item.optional_vars is not None:
+                        self.assign(item.optional_vars, value, env, mi, st)
+                    box.append(self._exec_with(st, idx + 1, env, mi))
+                finally:
+                    self._ctx_yield.pop()
+
+            self._ctx_yield.append((self.depth + 1, at_yield))
+            self._ctx_running = cm.func
+            try:
+                r = self._call_funcv(cm.func, cm.args, cm.kwargs, st)
+            finally:
+                self._ctx_yield.pop()
+                self._ctx_running = None
+            if not box:
+                if r is BOTTOM:
+                    return ("raise", None)
+                raise Unsupported(f"context manager {cm.func.qualname} did not yield")
+            if r is BOTTOM and box[0] is None:
+                return ("raise", None)
+            return box[0]
+        self.log("with", st, ctx=cm)
+        if item.optional_vars is not None:
+            self.assign(item.optional_vars, cm, env, mi, st)
+        out = self._exec_with(st, idx + 1, env, mi)
+        if isinstance(cm, Obj) and "__exit__" in cm.attrs:
+            self.call_function(cm.attrs["__exit__"], [], {}, st)
+        return out
+
+    def _match(self, pat: Any, subj: Any, binds: Dict[str, Any], env: Env, mi: ModInfo) -> Any:
+        """Structural pattern match: True / False / a condition term (decided only at run
+        time; the bindings are then valid under that condition) / None (not representable)."""
+
+        def conj(parts: List[Any]) -> Any:
+            if any(p is None for p in parts):
+                return False if any(p is False for p in parts) else None
+            return _boolcomb(True, parts)
+
+        if isinstance(subj, Gamma):
+            return None
         if isinstance(pat, ast.MatchValue):
             r = self.compare(ast.Eq(), subj, self.eval(pat.value, env, mi), pat)
-            return r if isinstance(r, bool) else None
+            return r if isinstance(r, bool) or _is_cond(r) else None
         if isinstance(pat, ast.MatchSingleton):
-            if isinstance(subj, (TV, Obj, Unknown, Gamma)) and not (isinstance(subj, Obj) and not subj.open_attrs):
-                return None
-            return subj is pat.value
+            r = self.compare(ast.Is(), subj, pat.value, pat)
+            return r if isinstance(r, bool) or _is_cond(r) else None
         if isinstance(pat, ast.MatchAs):
+            r: Any = True
             if pat.pattern is not None:
                 r = self._match(pat.pattern, subj, binds, env, mi)
-                if not r:
+                if r is False or r is None:
                     return r
             if pat.name:
                 binds[pat.name] = subj
-            return True
+            return r
         if isinstance(pat, ast.MatchOr):
-            unknown = False
+            if all(isinstance(p_, ast.MatchClass) and not p_.patterns and not p_.kwd_patterns for p_ in pat.patterns):
+                # `int() | float()`: one isinstance test against the tuple of classes
+                r = BUILTINS["isinstance"].fn(self, [subj, tuple(self.eval(p_.cls, env, mi) for p_ in pat.patterns)], {}, pat)
+                return r if isinstance(r, bool) or _is_cond(r) else None
+            parts = []
             for p_ in pat.patterns:
                 r = self._match(p_, subj, binds, env, mi)
-                if r:
-                    return True
-                if r is None:
-                    unknown = True
-            return None if unknown else False
+                if r is True:
+                    return True if not parts else (None if any(x is None for x in parts) else _boolcomb(False, parts + [True]))
+                if r is False:
+                    continue
+                parts.append(r)
+            if not parts:
+                return False
+            if any(x is None for x in parts):
+                return None
+            return _boolcomb(False, parts)
+        if isinstance(pat, ast.MatchClass):
+            cls = self.eval(pat.cls, env, mi)
+            r = BUILTINS["isinstance"].fn(self, [subj, cls], {}, pat)
+            if r is False:
+                return False
+            if r is not True and not _is_cond(r):
+                return None
+            parts = [r]
+            if pat.patterns:
+                margs = None
+                if isinstance(cls, ClassV):
+                    margs = self.class_attr(cls, "__match_args__")
+                    if margs is None and self.is_subclass_of_ext(cls, "NamedTuple"):
+                        margs = self.getattr(cls, "_fields", pat)
+                    if margs is None and any((_dotted(d.func if isinstance(d, ast.Call) else d) or "").split(".")[-1] == "dataclass" for d in cls.node.decorator_list):
+                        margs = tuple(st.target.id for st in cls.node.body if isinstance(st, ast.AnnAssign) and isinstance(st.target, ast.Name))
+                if margs is None:
+                    if len(pat.patterns) == 1 and not isinstance(cls, ClassV):
+                        parts.append(self._match(pat.patterns[0], subj, binds, env, mi))  # int(x), str(x), ...
+                    else:
+                        return None
+                else:
+                    for p_, nm in zip(pat.patterns, margs):
+                        parts.append(self._match(p_, self.getattr(subj, nm, pat), binds, env, mi))
+            for nm, p_ in zip(pat.kwd_attrs, pat.kwd_patterns):
+                parts.append(self._match(p_, self.getattr(subj, nm, pat), binds, env, mi))
+            return conj(parts)
+        if isinstance(pat, ast.MatchMapping):
+            if not isinstance(subj, dict):
+                return False if not isinstance(subj, (TV, Obj, Unknown)) else None
+            used, parts = [], []
+            for k_, p_ in zip(pat.keys, pat.patterns):
+                kv = self.eval(k_, env, mi)
+                if not (_hashable(kv) and kv in subj):
+                    return False
+                used.append(kv)
+                parts.append(self._match(p_, subj[kv], binds, env, mi))
+            if pat.rest:
+                binds[pat.rest] = {k_: v_ for k_, v_ in subj.items() if k_ not in used}
+            return conj(parts)
         if isinstance(pat, ast.MatchSequence):
-            if not isinstance(subj, (tuple, list)):
-                return False if not isinstance(subj, (TV, Obj, Unknown, Gamma)) else None
+            if isinstance(subj, Shape):
+                subj = tuple(subj)
+            if isinstance(subj, OneShot) or not isinstance(subj, (tuple, list)):
+                return False if not isinstance(subj, (TV, Obj, Unknown)) else None
             pats = pat.patterns
             stars = [i for i, p_ in enumerate(pats) if isinstance(p_, ast.MatchStar)]
+            parts = []
             if not stars:
                 if len(pats) != len(subj):
                     return False
                 for p_, x in zip(pats, subj):
-                    r = self._match(p_, x, binds, env, mi)
-                    if not r:
-                        return r
-                return True
+                    parts.append(self._match(p_, x, binds, env, mi))
+                    if parts[-1] is False:
+                        return False
+                return conj(parts)
             i = stars[0]
             after = len(pats) - i - 1
             if len(subj) < len(pats) - 1:
                 return False
             for p_, x in zip(pats[:i], subj[:i]):
-                r = self._match(p_, x, binds, env, mi)
-                if not r:
-                    return r
+                parts.append(self._match(p_, x, binds, env, mi))
             if pats[i].name:
                 binds[pats[i].name] = list(subj[i : len(subj) - after])
             for p_, x in zip(pats[i + 1 :], subj[len(subj) - after :]):
-                r = self._match(p_, x, binds, env, mi)
-                if not r:
-                    return r
-            return True
+                parts.append(self._match(p_, x, binds, env, mi))
+            return conj(parts)
         return None
+
+    def _lower_match(self, st: ast.Match, env: Env, mi: ModInfo) -> List[ast.stmt]:
+        """Rewrite a match statement, for the current subject value, into the statements of the
+        selected case, or into an if/else on a run-time condition followed by the remaining cases."""
+        subj = self.eval(st.subject, env, mi) if not isinstance(st.subject, ast.Constant) or not getattr(st.subject, "_usa_value", False) else st.subject.value
+        if isinstance(subj, Gamma):
+            raise Unsupported(f"match on a γ-valued subject at {mi.rel}:{st.lineno}")
+        for i, case in enumerate(st.cases):
+            binds: Dict[str, Any] = {}
+            m = self._match(case.pattern, subj, binds, env, mi)
+            if m is None:
+                raise Unsupported(f"match statement with an undecidable pattern at {mi.rel}:{st.lineno}")
+            if m is False:
+                continue
+            for k_, v_ in binds.items():
+                env.set(k_, v_)
+            if m is True and case.guard is None:
+                return list(case.body)
+            sub = ast.Constant(value=subj)
+            sub._usa_value = True  # type: ignore[attr-defined]
+            rest = ast.Match(subject=sub, cases=st.cases[i + 1 :])
+            tests: List[ast.expr] = []
+            if m is not True:
+                tests.append(ast.Constant(value=m))
+            if case.guard is not None:
+                tests.append(case.guard)
+            test = tests[0] if len(tests) == 1 else ast.BoolOp(op=ast.And(), values=tests)
+            node = ast.If(test=test, body=list(case.body), orelse=[rest] if rest.cases else [])
+            for x in (sub, rest, test, node, *tests):
+                ast.copy_location(x, st)
+            ast.fix_missing_locations(node)
+            return [node]
+        return []
 
     def concrete_iter(self, it: Any) -> Optional[List[Any]]:
         if isinstance(it, OneShot):
             if it.consumed:
                 return []
             it.consumed = True
-            return list(it)
+            return list(it)[it.pos :]
         if isinstance(it, (tuple, list)):
             return list(it)
         if isinstance(it, (set, frozenset)):
@@ -1044,6 +1291,10 @@ class Interp:
                 if target.attr == "data" or obj.kind == "tensor":
                     self.log("inplace", st, target=obj, op=f"setattr .{target.attr}", alias=obj.alias)
                 return
+            if isinstance(obj, FuncV):
+                obj.attrs[target.attr] = v
+            elif isinstance(obj, ClassV):
+                obj.overrides[target.attr] = v
             self.log("setattr", st, obj=obj, attr=target.attr, value=v)
             return
         if isinstance(target, ast.Subscript):
@@ -1190,10 +1441,16 @@ class Interp:
         return Unknown(f"unbound name {n.id}")
 
     def e_Tuple(self, n: ast.Tuple, env: Env, mi: ModInfo) -> Any:
-        return tuple(self._elts(n.elts, env, mi))
+        try:
+            return tuple(self._elts(n.elts, env, mi))
+        except _OpaqueStar as e:
+            return e.value
 
     def e_List(self, n: ast.List, env: Env, mi: ModInfo) -> Any:
-        return list(self._elts(n.elts, env, mi))
+        try:
+            return list(self._elts(n.elts, env, mi))
+        except _OpaqueStar as e:
+            return e.value
 
     def e_Set(self, n: ast.Set, env: Env, mi: ModInfo) -> Any:
         return make_set(self._elts(n.elts, env, mi))
@@ -1205,6 +1462,10 @@ class Interp:
                 v = self.eval(e.value, env, mi)
                 seq = self.concrete_iter(v)
                 if seq is None:
+                    if isinstance(v, ExtV) or (isinstance(v, TV) and v.kind == "opaque"):
+                        # unpacking an external / uninterpreted collection: the display is uninterpreted too
+                        parts = tuple(T("star", (_term(self.eval(x.value, env, mi)),)) if isinstance(x, ast.Starred) else _term(self.eval(x, env, mi)) for x in elts)
+                        raise _OpaqueStar(TV(T("display", parts), kind="opaque"))
                     raise Unsupported("star of non-concrete sequence")
                 out.extend(seq)
             else:
@@ -1329,6 +1590,9 @@ class Interp:
             return b
         if isinstance(a, (TV, Obj)) or isinstance(b, (TV, Obj)):
             return self.ext.tensor_binop(self, name, a, b, node, inplace)
+        if (isinstance(a, ExtV) and a.name not in self.ext.DTYPES) or (isinstance(b, ExtV) and b.name not in self.ext.DTYPES):
+            # an external constant (e.g. a library's default list) combined with a value: uninterpreted
+            return TV(T(name, (_term(a), _term(b))), kind="opaque")
         if isinstance(a, str) or isinstance(b, str):
             if name == "add" and isinstance(a, str) and isinstance(b, str):
                 return a + b
@@ -1337,6 +1601,10 @@ class Interp:
             if name == "mul":
                 return "<str>"
             raise Unsupported("string operator")
+        if isinstance(a, (set, frozenset)) and isinstance(b, (set, frozenset)) and name in ("and", "or", "sub", "xor"):
+            return {"and": a & b, "or": a | b, "sub": a - b, "xor": a ^ b}[name]
+        if isinstance(a, dict) and isinstance(b, dict) and name == "or":
+            return {**a, **b}
         if isinstance(a, (tuple, list)) and isinstance(b, (tuple, list)) and name == "add":
             return type(a)(list(a) + list(b)) if not isinstance(a, Shape) else Shape(tuple(a) + tuple(b))
         if isinstance(a, (tuple, list)) and isinstance(b, int) and name == "mul":
@@ -1469,8 +1737,34 @@ class Interp:
             if v.name + "." + attr in self.ext.EXT_CONSTS:
                 return self.ext.EXT_CONSTS[v.name + "." + attr]
             return ExtV(v.name + "." + attr)
+        if isinstance(v, NTuple):
+            if attr in v.fields:
+                return v[v.fields.index(attr)]
+            if attr == "_fields":
+                return tuple(v.fields)
+            if attr == "_asdict":
+                return _Builtin("_asdict", lambda it, a, k, nd, t=v: dict(zip(t.fields, t)))
+            if attr == "_replace":
+                return _Builtin("_replace", lambda it, a, k, nd, t=v: NTuple.make(t.cls, t.fields, [k.get(f_, x_) for f_, x_ in zip(t.fields, t)]))
+            r = self.class_attr(v.cls, attr) if v.cls is not None else None
+            if isinstance(r, FuncV):
+                if r.kind == "property":
+                    return self.call_function(r, [v], {}, node)
+                if r.kind == "staticmethod":
+                    return r
+                if r.kind == "classmethod":
+                    return Bound(r, v.cls)
+                return Bound(r, v)
+            if r is not None:
+                return r
         if isinstance(v, ClassV):
             r = self.class_attr(v, attr)
+            if isinstance(r, FuncV) and r.kind == "classmethod":
+                return Bound(r, v)
+            if attr == "_fields" and self.is_subclass_of_ext(v, "NamedTuple"):
+                return tuple(st.target.id for st in v.node.body if isinstance(st, ast.AnnAssign) and isinstance(st.target, ast.Name))
+            if attr == "_make" and self.is_subclass_of_ext(v, "NamedTuple"):
+                return _Builtin("_make", lambda it, a, k, nd, c=v: it._instantiate(c, list(it.concrete_iter(a[0]) or ()), {}, nd))
             if r is not None:
                 return r
             if attr == "apply" and self.is_subclass_of_ext(v, "autograd.Function"):
@@ -1479,6 +1773,19 @@ class Interp:
                 return {st.target.id: None for st in v.node.body if isinstance(st, ast.AnnAssign) and isinstance(st.target, ast.Name)}
             if attr == "__name__":
                 return v.node.name
+            if attr == "__doc__":
+                return ast.get_docstring(v.node)
+            if attr in ("mro", "__mro__"):
+                chain_: List[Any] = []
+                cur: Any = v
+                while isinstance(cur, ClassV) and len(chain_) < 20:
+                    chain_.append(cur)
+                    bs = self.class_bases(cur)
+                    cur = bs[0] if bs else None
+                if cur is not None:
+                    chain_.append(cur)
+                chain_.append(ExtV("builtins.object"))
+                return _Builtin("mro", lambda it, a, k, nd, c_=chain_: list(c_)) if attr == "mro" else tuple(chain_)
             for b in self.class_bases(v):
                 if isinstance(b, ExtV):
                     return ExtV(b.name + "." + attr)
@@ -1495,6 +1802,8 @@ class Interp:
                         return self.call_function(r, [v], {}, node)
                     if r.kind == "staticmethod":
                         return r
+                    if r.kind == "classmethod":
+                        return Bound(r, v.cls)
                     return Bound(r, v)
                 if r is not None:
                     return r
@@ -1506,6 +1815,16 @@ class Interp:
         if isinstance(v, TV):
             return self.ext.tensor_attr(self, v, attr, node)
         if isinstance(v, FuncV):
+            if attr in v.attrs:
+                return v.attrs[attr]
+            if attr == "__doc__":
+                return ast.get_docstring(v.node) if not isinstance(v.node, ast.Lambda) else None
+            if attr == "__wrapped__":
+                if v.wrapped is not None:
+                    expr, env_, mi_ = v.wrapped
+                    return self.eval(expr, env_ or Env(None, {}), mi_)
+                self.log("raise", node, exc="AttributeError")
+                return BOTTOM
             if attr == "__name__":
                 return v.node.name if not isinstance(v.node, ast.Lambda) else "<lambda>"
             if attr == "__qualname__":
@@ -1528,6 +1847,8 @@ class Interp:
         if isinstance(v, tuple):
             if attr in ("count", "index"):
                 return _Builtin(f"tuple.{attr}", lambda it, a, k, nd, s=v, at=attr: getattr(s, at)(*a))
+        if isinstance(v, PartialV) and attr in ("func", "args", "keywords"):
+            return getattr(v, attr)
         if isinstance(v, Unknown):
             return Unknown(v.why + f".{attr}")
         if isinstance(v, Bound) and attr == "__func__":
@@ -1596,6 +1917,11 @@ class Interp:
         raise Unsupported(f"subscript of {type(v).__name__}")
 
     def e_Yield(self, n: ast.Yield, env: Env, mi: ModInfo) -> Any:
+        if self._ctx_yield and self._ctx_yield[-1][0] == self.depth:
+            # the yield of a @contextmanager generator: the body of the with statement runs here
+            cb = self._ctx_yield[-1][1]
+            cb(self.eval(n.value, env, mi) if n.value is not None else None)
+            return None
         v = self.eval(n.value, env, mi) if n.value is not None else None
         if not self._yield_stack:
             raise Unsupported("yield outside a generator function")
@@ -1624,6 +1950,8 @@ class Interp:
             return
         g = gens[0]
         it = self.eval(g.iter, env, mi)
+        if it is BOTTOM:
+            raise _CompRaised()
         seq = self.concrete_iter(it)
         if seq is None:
             raise Unsupported(f"comprehension over non-concrete iterable at {mi.rel}:{getattr(g.iter, 'lineno', '?')}")
@@ -1660,17 +1988,40 @@ class Interp:
 
     def e_ListComp(self, n: ast.ListComp, env: Env, mi: ModInfo) -> Any:
         out: List[Any] = []
-        self._comp(n.generators, env, mi, lambda e, cond=None: out.append(self.eval(n.elt, e, mi) if cond is None else Maybe(cond, self.eval(n.elt, e, mi))))
+
+        def emit(e: Env, cond: Any = None) -> None:
+            v = self.eval(n.elt, e, mi)
+            if v is BOTTOM:
+                raise _CompRaised()
+            out.append(v if cond is None else Maybe(cond, v))
+
+        try:
+            self._comp(n.generators, env, mi, emit)
+        except _CompRaised:
+            return BOTTOM
         return out
 
     def e_GeneratorExp(self, n: ast.GeneratorExp, env: Env, mi: ModInfo) -> Any:
         out: List[Any] = []
-        self._comp(n.generators, env, mi, lambda e, cond=None: out.append(self.eval(n.elt, e, mi) if cond is None else Maybe(cond, self.eval(n.elt, e, mi))))
+
+        def emit(e: Env, cond: Any = None) -> None:
+            v = self.eval(n.elt, e, mi)
+            if v is BOTTOM:
+                raise _CompRaised()
+            out.append(v if cond is None else Maybe(cond, v))
+
+        try:
+            self._comp(n.generators, env, mi, emit)
+        except _CompRaised:
+            return BOTTOM
         return OneShot(out)
 
     def e_SetComp(self, n: ast.SetComp, env: Env, mi: ModInfo) -> Any:
         out: List[Any] = []
-        self._comp(n.generators, env, mi, lambda e, cond=None: out.append(self.eval(n.elt, e, mi)))
+        try:
+            self._comp(n.generators, env, mi, lambda e, cond=None: out.append(self.eval(n.elt, e, mi)))
+        except _CompRaised:
+            return BOTTOM
         return make_set(out)
 
     def e_DictComp(self, n: ast.DictComp, env: Env, mi: ModInfo) -> Any:
@@ -1684,7 +2035,10 @@ class Interp:
                 raise Unsupported("unhashable key in dict comprehension")
             out[k] = self.eval(n.value, e, mi)
 
-        self._comp(n.generators, env, mi, emit)
+        try:
+            self._comp(n.generators, env, mi, emit)
+        except _CompRaised:
+            return BOTTOM
         return out
 
     def e_Call(self, n: ast.Call, env: Env, mi: ModInfo) -> Any:
@@ -1716,6 +2070,8 @@ class Interp:
                     star_unknown = True
             else:
                 kwargs[kw.arg] = self.eval(kw.value, env, mi)
+        if f is BOTTOM or any(a is BOTTOM for a in args) or any(v is BOTTOM for v in kwargs.values()):
+            return BOTTOM  # evaluating the callee or an argument raised: the call never happens
         if star_unknown and isinstance(f, (FuncV, ClassV)) and not (isinstance(f, FuncV) and self.opaque(f)):
             raise Unsupported(f"call with non-concrete * / ** arguments at {mi.rel}:{n.lineno}")
         return self.call_function(f, args, kwargs, n)
@@ -1767,12 +2123,29 @@ class Interp:
         return self.call_function(f, [selfv, *args], kwargs, node)
 
 
+class _OpaqueStar(Exception):
+    def __init__(self, value: Any):
+        self.value = value
+
+
+class _CompRaised(Exception):
+    """An exception raised while a comprehension was being evaluated (its value is BOTTOM)."""
+
+
 class _Builtin:
     def __init__(self, name: str, fn: Callable[..., Any]):
         self.name, self.fn = name, fn
 
     def __repr__(self) -> str:
         return f"<builtin {self.name}>"
+
+
+class PartialV(_Builtin):
+    """functools.partial(func, *args, **keywords): callable, with the three read-only attributes."""
+
+    def __init__(self, func: Any, args: List[Any], keywords: Dict[str, Any]):
+        self.func, self.args, self.keywords = func, tuple(args), dict(keywords)
+        super().__init__("partial", lambda it, a, k, nd: it.call_function(self.func, list(self.args) + list(a), {**self.keywords, **k}, nd))
 
 
 class _DictItems:
@@ -2165,7 +2538,7 @@ def _same(a: Any, b: Any) -> bool:
 def _hashable(x: Any) -> bool:
     try:
         hash(x)
-        return isinstance(x, (str, int, tuple, bool, type(None), sp.Basic, T, ExtV, FuncV, ClassV))
+        return isinstance(x, (str, int, tuple, bool, type(None), sp.Basic, T, ExtV, FuncV, ClassV, Obj, ModV))  # Obj: identity, as object.__hash__
     except Exception:
         return False
 
